@@ -308,6 +308,8 @@ func (x *exec) step(st *Step) {
 		x.decLen(st)
 	case "rawframe":
 		x.rawFrame(st)
+	case "sendcache":
+		x.sendCache(st)
 	default:
 		panic("wiresim: unknown step op " + st.Op)
 	}
